@@ -229,6 +229,9 @@ def _setcover_cases(tier):
     yield dict(kind="setcover", universe=[0, 1, 1, 2], subsets=[[0, 1], [0, 1], [2], [1, 2]], weights=[2, 1, 1, 3])
     yield dict(kind="setcover", universe=[0, 1], subsets=[[0, 9], [1, 9], [0, 1, 9]], weights=[1, 1, 3])
     yield dict(kind="setcover", universe=[0, 1], subsets=[[0, 9], [1, 9], [0, 1, 9]], weights=[1, 1, 2])
+    # found by the thorough tier: HiGHS returns 1.0000000000000002 for a chosen subset (D15, exact `== 1` on a float)
+    yield dict(kind="setcover", universe=[0, 1, 2, 3, 4], subsets=[[0, 3], [0, 1, 2], [0, 2, 4], [1, 2, 4], [1, 3, 4]], weights=[2, 2, 1, 3, 3])
+    yield dict(kind="setcover", universe=[0, 1, 2, 3, 4], subsets=[[1, 2], [0, 1, 3], [0, 1, 4], [2, 3, 4], [0, 1, 3, 4]], weights=[2, 2, 1, 3, 3])
 
 
 def cases(tier):
@@ -285,7 +288,7 @@ def _check_genset(case):
         expected = max(lb, o[0])
     if not solved:
         below = expected < len(numbers)
-        return dict(ok=False, nontrivial=True, fingerprint="MinGenSet unsolved although a generating multiset exists" + (" (optimum below the number of input numbers)" if below else ""),
+        return dict(ok=False, nontrivial=True, fingerprint="MinGenSet unsolved although a generating multiset exists" + (" (optimum below the number of input numbers)" if below else " (with partition constraints)" if parts else ""),
                     what="solve() = %s on %s; oracle minimum %d, witness %s" % (ok, inst, expected, [str(x) for x in o[1]]), detail=dict(oracle=expected))
     sol = model.get_solution()
     tol = lambda v: 0 if wt is int else 1e-6 * (1 + abs(float(v)))
